@@ -1527,6 +1527,9 @@ class EBPF(EBPFBase):
             for tmp, i in save:
                 self.append(Opcode.MOV+Opcode.LONG+Opcode.REG, i, tmp, 0, 0)
             self.owners -= registers
+            # the restored registers hold their old value again, and a call
+            # in between must not take away registers we did not touch
+            self.owners |= {i for _, i in save} | (oldowners - registers)
 
     @contextmanager
     def get_stack(self, size):
